@@ -171,6 +171,15 @@ def is_pool_call(call, fname):
     return a0.get("kind") == "DeclRefExpr" and a0["referencedDecl"]["name"] == "syscall_job_pool"
 
 
+def is_errno(n):
+    """errno, i.e. (*__errno_location())"""
+    n = strip(n)
+    if n.get("kind") == "UnaryOperator" and n.get("opcode") == "*":
+        c = strip(inner(n)[0])
+        return c.get("kind") == "CallExpr" and callee_name(c) == "__errno_location"
+    return False
+
+
 def enum_const(n):
     n = strip(n)
     if n.get("kind") == "DeclRefExpr" and n["referencedDecl"].get("kind") == "EnumConstantDecl":
@@ -361,6 +370,10 @@ def proxy_tail(fn, sw):
     for n in walk(sw):
         if n.get("kind") == "CallExpr" and (is_pool_call(n, "qt_mpool_free") or callee_name(n) == "qt_threadqueue_enqueue"):
             raise SrcFactsError("free/requeue inside the switch")
+    for s0 in sts[:idx + 1]:
+        for n in walk(s0):
+            if n.get("kind") == "BinaryOperator" and n.get("opcode") == "=" and member_of(inner(n)[0], "item", "err"):
+                raise SrcFactsError("item->err is written before the proxied call has finished")
     ev = []
 
     def visit(s, ops):
@@ -378,6 +391,15 @@ def proxy_tail(fn, sw):
                 if n.get("kind") == "CallExpr" and (is_pool_call(n, "qt_mpool_free") or callee_name(n) == "qt_threadqueue_enqueue"):
                     raise SrcFactsError("free/requeue inside a loop after the switch")
             return
+        if k == "BinaryOperator" and s.get("opcode") == "=" and member_of(inner(s)[0], "item", "err"):
+            if not is_errno(inner(s)[1]):
+                raise SrcFactsError("item->err is assigned something other than errno")
+            if ops != OPS:
+                raise SrcFactsError("conditional item->err = errno is outside the recognised subset")
+            ev.append("PStoreErr")
+            return
+        if k == "BinaryOperator" and s.get("opcode") == "=" and is_errno(inner(s)[0]):
+            raise SrcFactsError("the proxy assigns errno after the switch")
         if k == "CallExpr":
             if is_pool_call(s, "qt_mpool_free"):
                 a = strip(inner(s)[2])
@@ -547,9 +569,33 @@ def wrapper_facts(fn, fname):
             return
         if k == "IfStmt":
             parts = inner(s)
+            cond = strip(parts[0])
+            if cond.get("kind") == "BinaryOperator" and retvar[0] is not None:
+                l, r = strip(inner(cond)[0]), strip(inner(cond)[1])
+                if l.get("kind") == "DeclRefExpr" and l["referencedDecl"]["name"] == retvar[0]:
+                    o = cond.get("opcode")
+                    c = None
+                    if o == "<" and r.get("kind") == "IntegerLiteral" and int(r["value"]) == 0:
+                        c = "ErrNeg"
+                    if o == "==" and r.get("kind") == "UnaryOperator" and r.get("opcode") == "-" and \
+                            strip(inner(r)[0]).get("kind") == "IntegerLiteral" and int(strip(inner(r)[0])["value"]) == 1:
+                        c = "ErrMinus1"
+                    if c is None or len(parts) > 2:
+                        raise SrcFactsError("%s: test on the call's result is outside the recognised subset" % where)
+                    body_st = [x for x in (inner(parts[1]) if parts[1].get("kind") == "CompoundStmt" else [parts[1]])]
+                    if len(body_st) != 1:
+                        raise SrcFactsError("%s: errno restore block is outside the recognised subset" % where)
+                    a0 = strip(body_st[0])
+                    if not (a0.get("kind") == "BinaryOperator" and a0.get("opcode") == "=" and is_errno(inner(a0)[0])
+                            and member_of(inner(a0)[1], jobvar[0], "err")):
+                        raise SrcFactsError("%s: block under the result test is not 'errno = job->err'" % where)
+                    events.append("WRestoreErr " + c)
+                    return
             # if (in a qthread) { ... } else { not a task }: the task path is the then-branch
             visit(parts[1])
             return
+        if k == "BinaryOperator" and s.get("opcode") == "=" and is_errno(inner(s)[0]):
+            raise SrcFactsError("%s: unconditional assignment to errno is outside the recognised subset" % where)
         for c in inner(s):
             if isinstance(c, dict):
                 visit(c)
